@@ -131,8 +131,14 @@ def series_mult(draw, n):
 @st.composite
 def herd_case(draw, codes):
     n = draw(st.sampled_from([12, 24, 36, 48, 60, 84, 120]) | st.integers(12, 120))
-    return dict(code=draw(st.sampled_from(codes)), strategy=draw(st.sampled_from(herd.STRATEGIES)), n=n,
-                feed_mult=draw(series_mult(n)), grass_mult=draw(series_mult(n)))
+    c = dict(code=draw(st.sampled_from(codes)), strategy=draw(st.sampled_from(herd.STRATEGIES)), n=n,
+             feed_mult=draw(series_mult(n)), grass_mult=draw(series_mult(n)))
+    # starting head counts can be overridden per species (documented numeric override): now and then 1-3 of them, incl. an emptied herd
+    if draw(st.integers(0, 3)) == 0:
+        k = draw(st.integers(1, 3))
+        sps = draw(st.lists(st.sampled_from(herd.SPECIES), min_size=k, max_size=k, unique=True))
+        c["heads"] = {sp + "_head_start": draw(st.sampled_from([0, 1, 1000, 10**6, 10**8])) for sp in sps}
+    return c
 
 
 def priority_key(sp, kd, hours):
@@ -151,7 +157,13 @@ def run_herd(ctx, c):
     feed = [m * req for m in c["feed_mult"]]
     grass = [m * req for m in c["grass_mult"]]
     kd = herd.kcals_dict()
-    animals, fu, gu, log = herd.run_main(c["code"], feed, grass, c["strategy"], None, kd, log=True)
+    try:
+        animals, fu, gu, log = herd.run_main(c["code"], feed, grass, c["strategy"], c.get("heads"), kd, log=True)
+    except AssertionError:
+        if c.get("heads"):          # the herd model may refuse an overridden stock row (e.g. dairy transfers larger than the meat herd)
+            ctx.abort("herd-model-refuses-overridden-heads")
+            return
+        raise
     case = dict(kind="herd", **c)
     ctx.event("strategy " + c["strategy"])
     ctx.sample(dict(code=c["code"], strategy=c["strategy"], months=c["n"], feed_mult_head=c["feed_mult"][:6],
